@@ -111,9 +111,15 @@ def run_shape(args):
                         solver_timeout_ms=shape.solver_timeout_ms,
                         wall_budget_s=opts.get('shape_wall_s'), known_classes=excl, on_model=on_model,
                         profile=opts.get('profile', False), max_decisions=shape.max_decisions,
-                        witnesses_per_class=opts.get('max_witness', 2))
+                        witnesses_per_class=opts.get('max_witness', 2),
+                        smt_samples=opts.get('smt_samples', 0) if (hash(shape.sid) % opts.get('smt_every', 1) == 0) else 0)
         d = res.to_dict()
         out.update(d)
+        out['second_solver'] = second_solver(res.extra.get('smt', []))
+        for nm, verdicts in out['second_solver']:
+            bad = [f'{k}={v}' for k, v in verdicts.items() if v == 'sat']
+            if bad:
+                out['harness_errors'].append(f'second solver disagrees on a discharged obligation {nm}: {bad}')
         # ---- reachability: the harness must reach its assertion on at least one path -------------
         if res.inconclusive is None and res.obligations == 0 and not res.nonterm:
             out['harness_errors'].append('no path reached an obligation (vacuous harness)')
@@ -196,6 +202,32 @@ def run_shape(args):
     return out
 
 
+def second_solver(samples, tlimit=20):
+    """re-decide sampled final queries (SMT-LIB2 text) with the cvc5 binary and the system z3 4.8.12"""
+    out = []
+    for expected, name, text in samples:
+        verdicts = {}
+        with tempfile.NamedTemporaryFile('w', suffix='.smt2', delete=False) as f:
+            f.write(text)
+            path = f.name
+        try:
+            for tool, cmd in (('cvc5', ['cvc5', f'--tlimit={tlimit * 1000}', path]), ('z3-4.8', ['/usr/bin/z3', f'-T:{tlimit}', path])):
+                try:
+                    p = subprocess.run(cmd, capture_output=True, text=True, timeout=tlimit + 10)
+                    o = (p.stdout + p.stderr).strip().splitlines()
+                    if any('(error' in ln for ln in o):
+                        verdicts[tool] = 'error'            # inconclusive (unsupported construct), never a verdict
+                    else:
+                        first = o[0].strip() if o else ''
+                        verdicts[tool] = first if first in ('sat', 'unsat', 'unknown') else 'unknown'
+                except (subprocess.TimeoutExpired, FileNotFoundError):
+                    verdicts[tool] = 'timeout'
+        finally:
+            os.unlink(path)
+        out.append((name, verdicts))
+    return out
+
+
 def save_replay(prop, shape, v, i):
     d = os.path.join(REPLAY_ROOT, prop, f'{_safe(shape.sid)}_{i}')
     shutil.rmtree(d, ignore_errors=True)
@@ -230,6 +262,7 @@ def run_property(mod, tier, seed, replay_path=None):
     budget = mod.BUDGET_S[tier]
     opts = {'prop': prop, 'known': known, 'profile': True,
             'max_witness': 2 if tier == 'quick' else 4,
+            'smt_samples': 1 if tier == 'quick' else 2, 'smt_every': 7 if tier == 'quick' else 5,
             'shape_wall_s': mod.SHAPE_WALL_S[tier] if hasattr(mod, 'SHAPE_WALL_S') else budget / 2}
     nproc = int(os.environ.get('VERIF_JOBS', os.cpu_count() or 4))
     results, unexplored = [], 0
@@ -339,6 +372,7 @@ def finish(mod, tier, seed, shapes, results, unexplored, known, wall, extra_erro
             'obligations': obligations, 'discharged': discharged,
             'outcome_classes': outcomes,
             'overflow_reachable_paths': sum(r.get('overflow_paths', 0) for r in results),
+            'second_solver': _second_summary(results),
             'functions_encoded': funcs,
             'stubs': getattr(mod, 'STUBS', None),
             'bounds': mod.BOUNDS, 'family': mod.FAMILY,
@@ -372,6 +406,17 @@ def finish(mod, tier, seed, shapes, results, unexplored, known, wall, extra_erro
           f'discharged={discharged} validated={ev["coverage"]["traces_validated_against_impl"]} '
           f'violations={len(confirmed)} known={sorted(seen_known)} wall={wall:.1f}s rc={rc}')
     return rc
+
+
+def _second_summary(results):
+    tot = {'queries': 0, 'cvc5': {}, 'z3-4.8': {}}
+    for r in results:
+        for nm, verdicts in r.get('second_solver') or []:
+            tot['queries'] += 1
+            for k, v in verdicts.items():
+                tot[k][v] = tot[k].get(v, 0) + 1
+    tot['note'] = 'sampled discharged obligations re-decided by the cvc5 1.0 binary and /usr/bin/z3 4.8.12; `sat` from either would be a harness error'
+    return tot
 
 
 def _z3_version():
